@@ -371,3 +371,28 @@ func (c *Conn) AdoptRemote(old *Conn) {
 	c.Flags, c.PermFlags, c.Attrs = old.Flags, old.PermFlags, old.Attrs
 	c.Hidden = old.Hidden
 }
+
+// SubmitBlocking sends an update, waiting for the server to take it (or ctx / close).
+func (c *Conn) SubmitBlocking(ctx context.Context, u imap.Update) bool {
+	for {
+		c.mu.Lock()
+		if c.closed {
+			c.mu.Unlock()
+			return false
+		}
+		// non-blocking attempt under the lock, so that Close cannot close the channel
+		// in the middle of a send
+		select {
+		case c.updCh <- u:
+			c.mu.Unlock()
+			return true
+		default:
+		}
+		c.mu.Unlock()
+		select {
+		case <-ctx.Done():
+			return false
+		case <-time.After(time.Millisecond):
+		}
+	}
+}
